@@ -310,50 +310,37 @@ theorem weightUpTo_sortWT (l : List WT) (t : Int) : weightUpTo (sortWT l) t = we
   | nil => simp [sortWT]
   | cons x xs ih => simp [sortWT, weightUpTo_insertWT, weightUpTo_cons, ih]
 
-/-- every timestamp is an int64 number of nanoseconds (years 1678–2262) -/
-def InRange (l : List WT) : Prop := ∀ w ∈ l, C36.minInt64 ≤ w.time ∧ w.time ≤ C36.maxInt64
-
-theorem sorted_insertWT (x : WT) (l : List WT) (hx : wrap64 x.time = x.time)
-    (hl : ∀ w ∈ l, wrap64 w.time = w.time)
+theorem sorted_insertWT (x : WT) (l : List WT)
     (hs : l.Pairwise (fun a b => a.time ≤ b.time)) :
     (insertWT x l).Pairwise (fun a b => a.time ≤ b.time) := by
   induction l with
   | nil => simp [insertWT]
   | cons y ys ih =>
-    have hy := hl y (by simp)
-    have hys : ∀ w ∈ ys, wrap64 w.time = w.time := fun w hw => hl w (by simp [hw])
     have hmin := (List.pairwise_cons.1 hs).1
     unfold insertWT
     split
     · rename_i hlt
-      rw [hx, hy] at hlt
-      refine List.pairwise_cons.2 ⟨?_, ih hys (List.pairwise_cons.1 hs).2⟩
+      refine List.pairwise_cons.2 ⟨?_, ih (List.pairwise_cons.1 hs).2⟩
       intro w hw
       rcases (mem_insertWT x ys w).1 hw with rfl | hw
       · omega
       · exact hmin w hw
     · rename_i hge
-      rw [hx, hy] at hge
       refine List.pairwise_cons.2 ⟨?_, hs⟩
       intro w hw
       rcases List.mem_cons.1 hw with rfl | hw
       · omega
       · have := hmin w hw; omega
 
-theorem sorted_sortWT (l : List WT) (hr : InRange l) : (sortWT l).Pairwise (fun a b => a.time ≤ b.time) := by
+theorem sorted_sortWT (l : List WT) : (sortWT l).Pairwise (fun a b => a.time ≤ b.time) := by
   induction l with
   | nil => simp [sortWT]
   | cons x xs ih =>
-    have hx := hr x (by simp)
-    have hxs : InRange xs := fun w hw => hr w (by simp [hw])
     unfold sortWT
-    refine sorted_insertWT x _ (C36.wrap64_id hx.1 hx.2) ?_ (ih hxs)
-    intro w hw
-    have := hxs w ((mem_sortWT xs w).1 hw)
-    exact C36.wrap64_id this.1 this.2
+    exact sorted_insertWT x _ ih
 
 /-- `WeightedMedian` returns the weighted median of its (non-nil) entries. -/
-theorem weightedMedian_spec (l : List WT) (hr : InRange l) (hp : ∀ w ∈ l, 0 < w.weight) (hne : l ≠ []) :
+theorem weightedMedian_spec (l : List WT) (hp : ∀ w ∈ l, 0 < w.weight) (hne : l ≠ []) :
     IsWeightedMedian l (weightedMedian l (totalWeight l)) := by
   have hne' : sortWT l ≠ [] := by
     cases l with
@@ -365,7 +352,7 @@ theorem weightedMedian_spec (l : List WT) (hr : InRange l) (hp : ∀ w ∈ l, 0 
   have htot := totalWeight_pos hp hne
   have hm : Int.tdiv (totalWeight l) 2 ≤ totalWeight (sortWT l) := by
     rw [totalWeight_sortWT, Int.tdiv_eq_ediv_of_nonneg (by omega)]; omega
-  obtain ⟨⟨w, hw, hwt⟩, h2, h3⟩ := pickMedian_spec (sortWT l) (sorted_sortWT l hr)
+  obtain ⟨⟨w, hw, hwt⟩, h2, h3⟩ := pickMedian_spec (sortWT l) (sorted_sortWT l)
     (fun w hw => hp w ((mem_sortWT l w).1 hw)) _ hm hne'
   unfold weightedMedian
   refine ⟨⟨w, (mem_sortWT l w).1 hw, hwt⟩, ?_, ?_⟩
